@@ -86,6 +86,80 @@ def interp(ctx, shape, pos, lkind='f', k=1, fills='default', issorted=None, dkin
     return ctx.done(same(ctx, r[1], Ref(dims, elabels, exp), attrs=attrs), ctx.observe(r[1]))
 
 
+def interp_like2(ctx, via):
+    """interp_like onto a template sharing TWO dimensions: successive 1-D interpolation along each of them"""
+    lx = ctx.labels('f', 2, 'lx')
+    ly = ctx.labels('f', 2, 'ly')
+    cells = ctx.cells('f', 4, 'v')
+    attrs = {'units': 'K'}
+    a = ctx.mk(['x', 'y'], [lx, ly], cells, lkinds=['f', 'f'], attrs=attrs)
+    nx = [ctx.real('nx0')]
+    ny = [ctx.real('ny0')]
+    if via == 'dimarray':
+        other = ctx.mk(['y', 'z', 'x'], [ny, [0], nx], [0.0], lkinds=['f', 'i', 'f'], register=False)
+    else:
+        other = ctx.da.Axes([ctx.da.Axis(ctx.nparray(nx, kind='f'), 'x'), ctx.da.Axis(ctx.nparray(ny, kind='f'), 'y')])
+    r = ctx.call(lambda: a.interp_like(other))
+    if r[0] != 'ok':
+        return ctx.done(False, r[1])
+    nanv = float('nan')
+    sx = sorted_positions(lx)
+    sy = sorted_positions(ly)
+    xs = [lx[i] for i in sx]
+    ys = [ly[i] for i in sy]
+    # along x first (for every y), then along y
+    col = []
+    for j in sy:
+        col.append(interp_value(ctx, xs, [cells[i * 2 + j] for i in sx], nx[0], nanv, nanv))
+    if any(ctx.isnan(c) for c in col):
+        # NaN propagates through the second interpolation unless the point hits a node whose value is finite: keep it simple, claim only the all-finite case
+        exp = None
+    else:
+        exp = interp_value(ctx, ys, col, ny[0], nanv, nanv)
+    if exp is None:
+        return ctx.done(True, ctx.observe(r[1]))
+    return ctx.done(same(ctx, r[1], Ref(['x', 'y'], [nx, ny], [exp]), attrs=attrs), ctx.observe(r[1]))
+
+
+def dataset_interp(ctx, n, k, fills='default'):
+    """Dataset.interp_axis: variables with the axis are interpolated like DimArrays (labels in any stored order), others unchanged"""
+    da = ctx.da
+    lx = ctx.labels('f', n, 'lx')
+    ly = ctx.labels('i', 2, 'ly')
+    ca = ctx.cells('f', n, 'va')
+    cb = ctx.cells('f', 2 * n, 'vb')
+    cc = ctx.cells('f', 2, 'vc')
+    a = ctx.mk(['x'], [lx], ca, lkinds=['f'])
+    b = ctx.mk(['y', 'x'], [ly, lx], cb, lkinds=['i', 'f'])
+    c = ctx.mk(['y'], [ly], cc, lkinds=['i'])
+    ds = da.Dataset()
+    ds['a'] = a
+    ds['b'] = b
+    ds['c'] = c
+    ds.attrs['title'] = 'T'
+    new = [ctx.real('q%d' % j) for j in range(k)]
+    kw = {}
+    if fills == 'sym':
+        left, right = ctx.real('left'), ctx.real('right')
+        kw = {'left': left, 'right': right}
+    else:
+        left = right = float('nan')
+    r = ctx.call(lambda: ds.interp_axis(list(new), axis='x', **kw))
+    if r[0] != 'ok':
+        return ctx.done(False, r[1])
+    res = r[1]
+    so = sorted_positions(lx)
+    xs = [lx[i] for i in so]
+    ea = [interp_value(ctx, xs, [ca[i] for i in so], q, left, right) for q in new]
+    eb = []
+    for j in range(2):
+        for q in new:
+            eb.append(interp_value(ctx, xs, [cb[j * n + i] for i in so], q, left, right))
+    ok = ctx.AND(list(res.keys()) == ['a', 'b', 'c'], same(ctx, res['a'], Ref(['x'], [new], ea)), same(ctx, res['b'], Ref(['y', 'x'], [ly, new], eb)),
+                 same(ctx, res['c'], Ref(['y'], [ly], cc)), res.attrs.get('title') == 'T', all(v.axes['x'] is res.axes['x'] for v in (res['a'], res['b'])))
+    return ctx.done(ok, ctx.observe(res))
+
+
 def templates():
     ts = []
 
@@ -114,6 +188,11 @@ def templates():
     add('int-query', 'interp', cost=1, shape=[3], pos=0, k=2, qkind='i', lkind='i')
     add('int-query-2d', 'interp', cost=1.5, shape=[3, 2], pos=0, k=1, qkind='i', lkind='f', newform='array')
     add('array-form', 'interp', cost=1, shape=[3], pos=0, k=2, newform='array', fills='sym')
+    for via in ('dimarray', 'axes'):
+        add('like-two-axes-%s' % via, 'interp_like2', cost=6, via=via)
+    for n, k in ((2, 1), (3, 1), (3, 2)):
+        for fills in ('default', 'sym'):
+            add('dataset-n%d-k%d-%s' % (n, k, fills), 'dataset_interp', 'quick' if (n, k) != (3, 2) or fills == 'sym' else 'thorough', cost={(2, 1): 1, (3, 1): 4, (3, 2): 20}[(n, k)], n=n, k=k, fills=fills)
     add('like-1d', 'interp', cost=1, shape=[3], pos=0, k=2, like=True)
     add('like-2d', 'interp', cost=2, shape=[2, 3], pos=1, k=2, like=True, fills='sym')
     return ts
